@@ -1,11 +1,21 @@
 (* glue for the correspondence files Cases_C12_enc.v / Cases_C12_conf.v written by harness/c12 *)
 From Coq Require Import ZArith List Bool.
+From Coq Require Export Uint63.
 From FxV Require Import model.M_Abi model.M_CkDesc model.M_Confirm.
 Import ListNotations.
 Open Scope Z_scope.
 
-(* byte strings are printed as their 32-byte words (big-endian numbers) plus the true length *)
-Definition bytes_of_words (len : Z) (ws : list Z) : list Z := firstn (Z.to_nat len) (flat_map word ws).
+(* Transport of large data.  Type-checking a 256-bit numeral costs milliseconds, so the harness
+   prints big numbers as little-endian lists of 52-bit primitive-integer limbs and byte strings as
+   big-endian 7-byte limbs plus the true length; they are unpacked here inside vm_compute.
+   Primitive integers occur only in this glue and in the generated Cases files. *)
+Fixpoint zl (l : list Uint63.int) : Z :=
+  match l with
+  | [] => 0
+  | x :: r => Uint63.to_Z x + 4503599627370496 * zl r   (* 2^52 *)
+  end.
+Definition bl (len : Z) (l : list Uint63.int) : list Z :=
+  firstn (Z.to_nat len) (flat_map (fun i => be_bytes 7 (Uint63.to_Z i)) l).
 
 Definition mk_set (nonce : Z) (members : list (Z * Z)) : obj :=
   OSet {| os_nonce := nonce; os_members := members |}.
@@ -14,21 +24,21 @@ Definition mk_batch (nonce timeout : Z) (txs : list (Z * Z * Z)) (token feerecv 
             b_txs := map (fun t => {| tx_amount := fst (fst t); tx_dest := snd (fst t); tx_fee := snd t |}) txs;
             b_token := token; b_feerecv := feerecv |}.
 Definition mk_call (sender refund : Z) (tokens : list (Z * Z)) (to : Z)
-           (dlen : Z) (dws : list Z) (mlen : Z) (mws : list Z) (nonce timeout evn : Z) : obj :=
+           (data memo : list Z) (nonce timeout evn : Z) : obj :=
   OCall {| c_sender := sender; c_refund := refund; c_tokens := tokens; c_to := to;
-           c_data := bytes_of_words dlen dws; c_memo := bytes_of_words mlen mws;
+           c_data := data; c_memo := memo;
            c_nonce := nonce; c_timeout := timeout; c_event_nonce := evn |}.
 
 (* ---- encoder cases: the model's pre-image against the bytes whose keccak is the real checkpoint ---- *)
 
-Record enc_case := { ec_gid : list Z; ec_obj : obj; ec_hash_ok : bool; ec_real : list Z }.
+Record enc_case := { ec_tron : bool; ec_gid : list Z; ec_obj : obj; ec_hash_ok : bool; ec_real : list Z }.
 (* hash_ok: the harness checked keccak(real bytes) = the value GetCheckpoint returned *)
-Definition mk_enc_case (gid : list Z) (o : obj) (hash_ok : bool) (real_words : list Z) : enc_case :=
-  {| ec_gid := gid; ec_obj := o; ec_hash_ok := hash_ok; ec_real := real_words |}.
+Definition mk_enc_case (tron : bool) (gid : list Z) (o : obj) (hash_ok : bool) (real : list Z) : enc_case :=
+  {| ec_tron := tron; ec_gid := gid; ec_obj := o; ec_hash_ok := hash_ok; ec_real := real |}.
 
 Definition enc_mismatch (c : enc_case) : bool :=
   negb (ec_hash_ok c) ||
-  negb (zlist_eqb (go_preimage (ec_gid c) (ec_obj c)) (flat_map word (ec_real c))).
+  negb (zlist_eqb (go_preimage (ec_tron c) (ec_gid c) (ec_obj c)) (ec_real c)).
 
 (* ---- confirm cases ---- *)
 
@@ -39,7 +49,7 @@ Definition mk_st (tron : bool) (gid : list Z) (idx : list (Z * Z)) (orcs : list 
            (objs : list (okey * obj)) (conf : list (ckey * cmsg)) : cstate :=
   {| st_tron := tron; st_gid := gid; st_ext_index := idx; st_oracles := orcs; st_objs := objs; st_conf := conf |}.
 
-(* what go-ethereum's recover returned: (pre-image words, signature after v normalisation, address string id) *)
+(* what go-ethereum's recover returned: (pre-image bytes, signature after v normalisation, address string id) *)
 Definition rec_entry := (list Z * list Z * option Z)%type.
 
 Record conf_case := {
@@ -54,7 +64,7 @@ Fixpoint rec_lookup (recs : list rec_entry) (pre sig : list Z) : option (option 
   match recs with
   | [] => None
   | (pw, s, r) :: rest =>
-      if zlist_eqb (flat_map word pw) pre && zlist_eqb s sig then Some r else rec_lookup rest pre sig
+      if zlist_eqb pw pre && zlist_eqb s sig then Some r else rec_lookup rest pre sig
   end.
 
 (* unknown (pre-image, signature): nobody *)
@@ -66,7 +76,7 @@ Definition case_recover (recs : list rec_entry) (tron : bool) (pre sig : list Z)
 Definition rec_missing (c : conf_case) : bool :=
   match assoc okey_eqb (msg_okey (cc_msg c)) (st_objs (cc_st c)), m_sig (cc_msg c) with
   | Some o, Some sig =>
-      match go_checkpoint (st_gid (cc_st c)) o with
+      match go_checkpoint (st_tron (cc_st c)) (st_gid (cc_st c)) o with
       | Some pre =>
           if zlen sig <? 65 then false
           else match rec_lookup (cc_recs c) pre (norm_v sig) with Some _ => false | None => true end
